@@ -85,7 +85,34 @@ ATTRS = [
     'style="display:block"',
     'style="display:inline"',
 ] + ['class="%s"' % c for c in NO_DISPLAY] + ['id="%s"' % c for c in ("noprint", "navbox")]
-CELL_ATTRS = {1: 'colspan="3" |', 2: 'rowspan="2" style="height:5px" |'}
+ATTRS += ['colspan="3"', 'rowspan="2" style="height:5px"']
+
+# the "dimension" part of the palette: every property that carries a length or a number which the
+# cleaner, styleutils or miscutils read (or copy into the writers' vlist), written in every shape.
+# Attribute id len(ATTRS) + p*len(DIM_SHAPES) + s + 1 (0-based p, s) = property p in shape s.
+DIM_PROPS = [
+    'style="overflow:auto; height:%s"',          # remove_scroll_elements -> styleutils.scale_length
+    'style="overflow:auto; max-height:%s; height:%s"',
+    'style="overflow:AUTO; HEIGHT:%s"',
+    'style="width:%s"',
+    'style="height:%s; width:%s"',
+    'style="font-size:%s"',
+    'style="margin:%s; padding:%s"',
+    'style="border-width:%s; border-style:solid"',
+    'style="border:%s solid"',
+    'style="line-height:%s"',
+    'colspan="%s"',                                # AdvancedNode._clean_attrs / fix_table_colspans / numcols
+    'rowspan="%s"',                                # split_table_lists
+    'colspan=%s rowspan=%s',
+    'border="%s"',                                 # styleutils.table_border
+    'width="%s"',
+    'height="%s"',
+    'cellpadding="%s" cellspacing="%s"',
+]
+DIM_SHAPES = ["300px", "300pt", "30em", "50%", "150%", "300", "12.5px", "250.75pt", "-20px", "-5", "0", "0px", "0%", "",
+              "auto", "12 px", "1e3px", "300PX", "40EM", "80 %", "px", "%", "3", "2", "17", "1.5", "100000000000000000000",
+              "3;", "\u0663"]
+
 
 # (block text, inline text)
 SNIPS = [
@@ -152,6 +179,14 @@ SNIPS = [
     "{{unknown template|x}}",
     "<tt>tele</tt><kbd>k</kbd><s>s</s><strike>st</strike><del>d</del><ins>i</ins><var>v</var><u>u</u>",
     "<font color=\"red\">font</font>",
+    "<div id=\"region_list\">\n<div>\n{|\n| rn1 || rn2\n|-\n| rn3 || rn4\n|}\n</div>\n</div>",
+    "<div id=\"region_list\">\n* item\n{|\n| {|\n| in1 || in2\n|}\n|}\n</div>",
+    "{|\n|\n{|\n| " + "longcell " * 70 + "|| second\n|-\n| third || fourth\n|}\n|}",
+    "{|\n|+ outer cap\n|\n{|\n| " + "longcell " * 70 + "\n|}\n|}",
+    " pre [[File:Pic.png]] mid [[File:Pic2.png]] end",
+    " pre [[File:Pic.png]] text ''x [[File:Pic2.png]] y'' end",
+    "<div style=\"overflow:auto; height:50%\">pct</div>",
+    "{| style=\"overflow:auto; height:80%\"\n| pc1 || pc2\n|}",
     "<li>stray li</li>",
     "<td>stray td</td>",
     "<caption>stray cap</caption>",
@@ -188,8 +223,19 @@ def _prefix(code, n):
     return "".join(PREFIX_CHARS[d] for d in reversed(digits))
 
 
+def attr_text(a):
+    """attribute id -> attribute text ('' for 0)"""
+    if a == 0:
+        return ""
+    if a <= len(ATTRS):
+        return ATTRS[a - 1]
+    k = (a - len(ATTRS) - 1) % (len(DIM_PROPS) * len(DIM_SHAPES))
+    prop, shape = DIM_PROPS[k // len(DIM_SHAPES)], DIM_SHAPES[k % len(DIM_SHAPES)]
+    return prop.replace("%s", shape)
+
+
 def _attr(a):
-    return "" if a == 0 else " " + ATTRS[(a - 1) % len(ATTRS)]
+    return "" if a == 0 else " " + attr_text(a)
 
 
 def concretise(doc, lexemes=None):
@@ -210,6 +256,8 @@ def concretise(doc, lexemes=None):
             o.append("=" * a)
         elif t == "li":
             o.append(_prefix(a, b))
+        elif t == "dsep":
+            o.append(" : ")
         elif t == "pre":
             o.append(" ")
         elif t == "tb":
@@ -217,9 +265,9 @@ def concretise(doc, lexemes=None):
         elif t == "te":
             o.append("|}")
         elif t == "tr":
-            o.append("|-")
+            o.append("|-" + _attr(a))
         elif t == "tc":
-            o.append(("!" if a else "|") + ((" " + CELL_ATTRS[b]) if b else ""))
+            o.append(("!" if a else "|") + ((_attr(b) + " |") if b else ""))
         elif t == "tcc":
             o.append("!!" if a else "||")
         elif t == "tcap":
